@@ -4,6 +4,7 @@ import (
 	"fmt"
 	"go/token"
 	"go/types"
+	"strings"
 
 	"golang.org/x/tools/go/ssa"
 
@@ -343,10 +344,10 @@ func R08(group string) Rule {
 				n++
 				arg := ci.Common.Args[len(ci.Common.Args)-1]
 				have, why := minLen(P, arg, ci.Instr.Block())
-				ok := have >= 8
+				ok := have >= 8 && strings.Contains(why, "== 8")
 				c.Check(ok, "R08", fmt.Sprintf("ReadModifyWriteRow/uint64-length#%d", n), ci.Instr.Pos(),
-					"BigEndian.Uint64 is dominated by a length test establishing len ≥ 8 ("+why+")",
-					fmt.Sprintf("BigEndian.Uint64 is applied to a stored value whose length is only known to be ≥ %d: a non-8-byte value panics (or is silently misread) instead of failing the request", have))
+					"BigEndian.Uint64 is dominated by a length test establishing len == 8 ("+why+")",
+					fmt.Sprintf("BigEndian.Uint64 is applied to a stored value whose length is not known to be exactly 8 (established: len ≥ %d, %s): a shorter value panics, a longer one is silently truncated instead of failing the request", have, orNone(why)))
 			}
 			if n == 0 {
 				c.Unknown("R08", "ReadModifyWriteRow/uint64-length", fn.Pos(), "no BigEndian.Uint64 call found")
@@ -421,6 +422,50 @@ func R08(group string) Rule {
 				}
 				if n < 4 {
 					c.Unknown("R08", "ReadRows/floor", fn.Pos(), "expected four scan dispatch sites, found %d", n)
+				}
+				// rows_limit is tested at the start of every callback invocation, before a row is added
+				var limitVal ssa.Value
+				for _, b := range fn.Blocks {
+					for _, in := range b.Instrs {
+						if cv, ok := in.(*ssa.Convert); ok && loadsField(cv.X, "RowsLimit") {
+							limitVal = cv
+						}
+					}
+				}
+				for _, f := range core.Family(fn) {
+					for _, ci := range core.AllCalls(f) {
+						if !ci.IsFunc(core.PkgBttest, "(*chunkBuilder).add") || f == fn {
+							continue
+						}
+						// cut the edges on which the limit test lets the row through
+						var cut []cfgEdge
+						for _, b := range f.Blocks {
+							ifi, ok := b.Instrs[len(b.Instrs)-1].(*ssa.If)
+							if !ok {
+								continue
+							}
+							bin, ok := ifi.Cond.(*ssa.BinOp)
+							if !ok {
+								continue
+							}
+							isLimit := func(v ssa.Value) bool {
+								rv := core.Resolve(v)
+								return limitVal != nil && (rv == limitVal || rv == core.Resolve(limitVal))
+							}
+							switch {
+							case bin.Op == token.GTR && isLimit(bin.X): // limit > 0 : false edge = unlimited
+								cut = append(cut, cfgEdge{b, b.Succs[1]})
+							case bin.Op == token.GEQ && isLimit(bin.Y): // count >= limit : false edge = below the limit
+								cut = append(cut, cfgEdge{b, b.Succs[1]})
+							case bin.Op == token.LSS && isLimit(bin.Y): // count < limit : true edge
+								cut = append(cut, cfgEdge{b, b.Succs[0]})
+							case bin.Op == token.LEQ && isLimit(bin.X): // limit <= 0 : true edge = unlimited
+								cut = append(cut, cfgEdge{b, b.Succs[0]})
+							}
+						}
+						ok := len(cut) > 0 && !reachableWithoutEdges(f, ci.Instr.Block(), cut)
+						c.Check(ok, "R08", "ReadRows/limit-tested-before-row-is-added", ci.Instr.Pos(), "a row is only added on an edge where rows_limit is unset or not yet reached", "a row can be added without rows_limit having been tested in this callback invocation: the callback runs anew for every range of the row set, so each later range emits a row beyond the limit")
+					}
 				}
 				// validateRowRanges: every failure is InvalidArgument
 				v := P.MustFunc(core.PkgBttest, "validateRowRanges")
